@@ -153,11 +153,7 @@ Definition parse_rfc2822 (p : Model.Parsed.parsed) (s : bytes) : PR (Model.Parse
   let+ '(p, s) :=
     (let* r := char (trim_start s) 58 in
      match r with
-<<<<<<< HEAD
      | POk s_ => consume_number p (if P2822_SECOND_TRIM then trim_start s_ else s_) P2822_SECOND 18
-=======
-     | POk s_ => consume_number p (trim_start s_) P2822_SECOND 18   (* repaired 434a887: s_.trim_start() *)
->>>>>>> wt-C09
      | PErr _ => pok (p, s)
      end) in
   let+ s := space s in
